@@ -163,7 +163,22 @@ func runStartupOps(ops []string) []string {
 			if err := s.StartWithPortmapper(); err != nil {
 				out[i] = "skipped(" + err.Error() + ")"
 			} else {
+				// a conformant client finds the services through the portmapper it was started with: GETPORT for
+				// NFS v3 and MOUNT v3 over TCP must name the port the server is actually listening on
 				out[i] = conformantClient(s.GetPort())
+				if out[i] == "rm" {
+					for _, pv := range [][2]uint32{{progNFS, 3}, {progMount, 3}} {
+						got, err := pmGetPort(pv[0], pv[1])
+						if err != nil {
+							out[i] = "portmapper-unreachable(" + err.Error() + ")"
+							break
+						}
+						if int(got) != s.GetPort() {
+							out[i] = fmt.Sprintf("portmapper-names-port-%d-for-prog-%d-but-the-server-listens-on-another-port", got, pv[0])
+							break
+						}
+					}
+				}
 			}
 			s.Stop()
 			n.Close()
@@ -227,4 +242,21 @@ func checkC28(r *Result, rng *rand.Rand, thorough bool) {
 		}
 	}
 	compareWithModel(r, "startup", cases, impl, runStartupOps)
+}
+
+// pmGetPort asks the portmapper on 127.0.0.1:111 (portmap v2 GETPORT, TCP) for the port of (prog, vers, tcp).
+func pmGetPort(prog, vers uint32) (uint32, error) {
+	conn, err := net.DialTimeout("tcp", "127.0.0.1:111", 2*time.Second)
+	if err != nil {
+		return 0, err
+	}
+	defer conn.Close()
+	rep, err := rmCall(conn, 4242, 100000, 2, 3, cat(u32(prog), u32(vers), u32(6), u32(0)))
+	if err != nil {
+		return 0, err
+	}
+	if len(rep) < 28 || binary.BigEndian.Uint32(rep[8:]) != 0 || binary.BigEndian.Uint32(rep[20:]) != 0 {
+		return 0, fmt.Errorf("GETPORT not answered with SUCCESS (%d reply bytes)", len(rep))
+	}
+	return binary.BigEndian.Uint32(rep[24:]), nil
 }
